@@ -195,3 +195,17 @@ Proof.
   - destruct (0 <? k_len c) eqn:E; inversion H; subst; simpl. apply Nat.ltb_lt in E. split; intros; try discriminate; lia.
   - destruct (0 <? k_rem c) eqn:E; inversion H; subst; simpl. apply Nat.ltb_lt in E. split; intros; try discriminate; lia.
 Qed.
+
+(* ---------- IndentPass: cursor 0 runs the formatter once, every other cursor stops; advance and
+   advance_on_success both move to the next cursor.  `changes k` says whether the formatter changes the text it is
+   given at step k - ANY formatter (idempotent or not, shrinking or growing).  Exact model; at most two transform calls. *)
+Definition indent_step (changes:bool) (c:nat) (b:bool) : option nat :=
+  if Nat.eqb c 0 && changes then Some (S c) else None.
+Theorem indent_terminates (changes:nat -> bool) verdict :
+  exists m, run (nat * nat) (fun ck b => match indent_step (changes (snd ck)) (fst ck) b with
+                                          | Some c' => Some (c', S (snd ck)) | None => None end)
+                3 verdict 0 (0, 0) = Some m /\ m <= 2.
+Proof.
+  cbn [run indent_step Nat.eqb andb fst snd].
+  destruct (changes 0); cbn [run indent_step Nat.eqb andb fst snd]; eexists; split; try reflexivity; lia.
+Qed.
